@@ -233,7 +233,8 @@ Section WithPathMatch.
     | (e, text) :: r =>
         let fresh := negb (is_nil text) && negb (mem_str text seen) in
         let fwd := fresh && negb (existsb (hides pm ug e) nomsg) in
-        ((e, ug) :: (if fwd && negb (existsb (hides pm true e) nofail) then [(e, true)] else []))
+        ((e, ug) :: (if existsb (hides pm ug e) nomsg && negb ug then [(e, true)] else [])
+                 ++ (if fwd && negb (existsb (hides pm true e) nofail) then [(e, true)] else []))
           ++ nomsg_queries ug nomsg nofail (if fresh then text :: seen else seen) r
     end.
 
@@ -252,12 +253,22 @@ Section WithPathMatch.
     logger_step pm ug st (e, text) = Some (st', b) ->
     let fresh := negb (is_nil text) && negb (mem_str text (l_seen st)) in
     let fwd := fresh && negb (existsb (hides pm ug e) (l_nomsg st)) in
-    l_nomsg st' = map (derive ((e, ug) :: (if fwd && negb (existsb (hides pm true e) (l_nofail st)) then [(e, true)] else [])) [])
+    l_nomsg st' = map (derive ((e, ug) :: (if existsb (hides pm ug e) (l_nomsg st) && negb ug then [(e, true)] else [])
+                                       ++ (if fwd && negb (existsb (hides pm true e) (l_nofail st)) then [(e, true)] else [])) [])
                       (l_nomsg st).
   Proof.
     cbn [logger_step].
-    destruct (list_is_suppressed pm (l_nomsg st) e ug) as [[n1 sup]|] eqn:H1; [|discriminate].
+    destruct (list_is_suppressed pm (l_nomsg st) e ug) as [[n0 sup]|] eqn:H1; [|discriminate].
     apply list_is_suppressed_eq in H1. destruct H1 as [-> ->]. rewrite map_upd_derive.
+    destruct (existsb (hides pm ug e) (l_nomsg st) && negb ug) eqn:Hw.
+    { (* the worker drops the finding and asks the global suppressions too *)
+      apply andb_prop in Hw. destruct Hw as [Hh Hug]. rewrite Hh. cbn [negb andb app].
+      destruct (list_is_suppressed pm _ e true) as [[n1 b0]|] eqn:H0; [|discriminate].
+      apply list_is_suppressed_eq in H0. destruct H0 as [-> _]. rewrite map_upd_derive, map_derive_derive.
+      rewrite !andb_false_r. cbn [app].
+      destruct (is_nil text); [intros H; injection H as <- <-; reflexivity|].
+      destruct (mem_str text (l_seen st)); intros H; injection H as <- <-; reflexivity. }
+    cbn [app].
     destruct (is_nil text) eqn:Hn; cbn [negb andb].
     { intros H; injection H as <- <-. reflexivity. }
     destruct (mem_str text (l_seen st)) eqn:Hs; cbn [negb andb].
@@ -594,8 +605,11 @@ Section WithPathMatch.
     cbn [nomsg_queries] in H. apply in_app_or in H. destruct H as [H|H].
     - destruct H as [H|H].
       + injection H as -> ->. split; [auto|]. exists t0. left. reflexivity.
-      + destruct (_ && _) in H; [|destruct H]. destruct H as [H|[]]. injection H as -> ->.
-        split; [auto|]. exists t0. left. reflexivity.
+      + apply in_app_or in H. destruct H as [H|H].
+        * destruct (_ && _) in H; [|destruct H]. destruct H as [H|[]]. injection H as -> ->.
+          split; [auto|]. exists t0. left. reflexivity.
+        * destruct (_ && _) in H; [|destruct H]. destruct H as [H|[]]. injection H as -> ->.
+          split; [auto|]. exists t0. left. reflexivity.
     - apply IH in H. destruct H as [H1 [t H2]]. split; [exact H1|]. exists t. right. exact H2.
   Qed.
 
@@ -976,14 +990,14 @@ Definition w24_finding : emsg := mkEmsg 0 S_NULLPOINTER S_AC 3 [] [].
 Definition w24_files : list finput := [mkF S_AC [] [] [(w24_finding, [109])]].
 Definition w24_cfg : config := mkC 0 true false [].
 
-Lemma witness_executor_dependent :
-  exists o1 o2 s,
+(* before fix 524f0f5 the thread and process executors reported the global entry here *)
+Lemma witness_executors_agree :
+  exists o1 o2,
     whole_run pm_eq None w24_cfg w24_nomsg [] w24_files [] = Some o1
     /\ whole_run pm_eq (Some EThread) w24_cfg w24_nomsg [] w24_files [] = Some o2
     /\ whole_run pm_eq (Some EProcess) w24_cfg w24_nomsg [] w24_files [] = Some o2
-    /\ o_unmatched o1 = [] /\ o_unmatched o2 = [s]
-    /\ hides pm_eq true w24_finding s = true.
-Proof. eexists. eexists. eexists. vm_compute. repeat split; reflexivity. Qed.
+    /\ o_unmatched o1 = [] /\ o_unmatched o2 = [].
+Proof. eexists. eexists. vm_compute. repeat split; reflexivity. Qed.
 
 (* C25: --suppress=memleak (matches nothing), --exitcode-suppressions with the line
    unmatchedSuppression, --error-exitcode=7, --enable=information, a.c without findings *)
